@@ -726,10 +726,11 @@ where
 }
 
 fn check_max_directives(doc: &ExecutableDocument, max_directives: usize) -> ServerResult<()> {
-    fn check_selection_set(
-        doc: &ExecutableDocument,
-        selection_set: &Positioned<SelectionSet>,
+    fn check_selection_set<'a>(
+        doc: &'a ExecutableDocument,
+        selection_set: &'a Positioned<SelectionSet>,
         limit_directives: usize,
+        checked_fragments: &mut HashSet<&'a str>,
     ) -> ServerResult<()> {
         for selection in &selection_set.node.items {
             #[cfg(async_graphql_verif)]
@@ -745,13 +746,26 @@ fn check_max_directives(doc: &ExecutableDocument, max_directives: usize) -> Serv
                             Some(field.pos),
                         ));
                     }
-                    check_selection_set(doc, &field.node.selection_set, limit_directives)?;
+                    check_selection_set(
+                        doc,
+                        &field.node.selection_set,
+                        limit_directives,
+                        checked_fragments,
+                    )?;
                 }
                 Selection::FragmentSpread(fragment_spread) => {
-                    if let Some(fragment) =
-                        doc.fragments.get(&fragment_spread.node.fragment_name.node)
+                    let name = fragment_spread.node.fragment_name.node.as_str();
+                    // The verdict on a fragment does not depend on where it is spread:
+                    // check each fragment once, however often it is spread.
+                    if checked_fragments.insert(name)
+                        && let Some(fragment) = doc.fragments.get(name)
                     {
-                        check_selection_set(doc, &fragment.node.selection_set, limit_directives)?;
+                        check_selection_set(
+                            doc,
+                            &fragment.node.selection_set,
+                            limit_directives,
+                            checked_fragments,
+                        )?;
                     }
                 }
                 Selection::InlineFragment(inline_fragment) => {
@@ -759,6 +773,7 @@ fn check_max_directives(doc: &ExecutableDocument, max_directives: usize) -> Serv
                         doc,
                         &inline_fragment.node.selection_set,
                         limit_directives,
+                        checked_fragments,
                     )?;
                 }
             }
@@ -767,19 +782,26 @@ fn check_max_directives(doc: &ExecutableDocument, max_directives: usize) -> Serv
         Ok(())
     }
 
+    let mut checked_fragments = HashSet::new();
     for (_, operation) in doc.operations.iter() {
-        check_selection_set(doc, &operation.node.selection_set, max_directives)?;
+        check_selection_set(
+            doc,
+            &operation.node.selection_set,
+            max_directives,
+            &mut checked_fragments,
+        )?;
     }
 
     Ok(())
 }
 
 fn check_recursive_depth(doc: &ExecutableDocument, max_depth: usize) -> ServerResult<()> {
-    fn check_selection_set(
-        doc: &ExecutableDocument,
-        selection_set: &Positioned<SelectionSet>,
+    fn check_selection_set<'a>(
+        doc: &'a ExecutableDocument,
+        selection_set: &'a Positioned<SelectionSet>,
         current_depth: usize,
         max_depth: usize,
+        deepest_walk: &mut HashMap<&'a str, usize>,
     ) -> ServerResult<()> {
         if current_depth > max_depth {
             return Err(ServerError::new(
@@ -802,19 +824,28 @@ fn check_recursive_depth(doc: &ExecutableDocument, max_depth: usize) -> ServerRe
                             &field.node.selection_set,
                             current_depth + 1,
                             max_depth,
+                            deepest_walk,
                         )?;
                     }
                 }
                 Selection::FragmentSpread(fragment_spread) => {
-                    if let Some(fragment) =
-                        doc.fragments.get(&fragment_spread.node.fragment_name.node)
-                    {
-                        check_selection_set(
-                            doc,
-                            &fragment.node.selection_set,
-                            current_depth + 1,
-                            max_depth,
-                        )?;
+                    let name = fragment_spread.node.fragment_name.node.as_str();
+                    if let Some(fragment) = doc.fragments.get(name) {
+                        // A fragment that was already walked at this depth or deeper cannot
+                        // exceed the limit from here either: walk it again only when it is
+                        // reached deeper than ever before (a cycle always is, so it still
+                        // runs into the limit).
+                        let deepest = deepest_walk.entry(name).or_insert(0);
+                        if *deepest < current_depth + 1 {
+                            *deepest = current_depth + 1;
+                            check_selection_set(
+                                doc,
+                                &fragment.node.selection_set,
+                                current_depth + 1,
+                                max_depth,
+                                deepest_walk,
+                            )?;
+                        }
                     }
                 }
                 Selection::InlineFragment(inline_fragment) => {
@@ -823,6 +854,7 @@ fn check_recursive_depth(doc: &ExecutableDocument, max_depth: usize) -> ServerRe
                         &inline_fragment.node.selection_set,
                         current_depth + 1,
                         max_depth,
+                        deepest_walk,
                     )?;
                 }
             }
@@ -831,8 +863,15 @@ fn check_recursive_depth(doc: &ExecutableDocument, max_depth: usize) -> ServerRe
         Ok(())
     }
 
+    let mut deepest_walk = HashMap::new();
     for (_, operation) in doc.operations.iter() {
-        check_selection_set(doc, &operation.node.selection_set, 0, max_depth)?;
+        check_selection_set(
+            doc,
+            &operation.node.selection_set,
+            0,
+            max_depth,
+            &mut deepest_walk,
+        )?;
     }
 
     Ok(())
